@@ -226,7 +226,9 @@ class IterativeTighteningSearch(Bounded, Generic[B]):
                         else:
                             self._untightened.push(best)
                         assert self.best_match == best
-                        return ret
+                        # reaching the goal usually changes this search's own bounds, which is progress as well
+                        return ret or starting_bounds.lower_bound < self.bounds().lower_bound \
+                            or starting_bounds.upper_bound > self.bounds().upper_bound
                 for node in list(self._untightened.min_node):
                     if node.deleted:
                         continue
